@@ -104,7 +104,7 @@ ADDED = {
  "C11": " Also: a publishing function performs no other mutation of the final name.",
  "C12": " Also: identifiers given to SetSent/SetDeferred only reach renames between symmetric names or are checked (C12-localid); OpenMessage replaces X-FilePath with the opened path (C12-filepath).",
  "C13": " Also: a fresh frame value per iteration of the receive loop; io.EOF only on the closed-channel edge; frames reach the TNC connection whole - under a TNC mutex or in one Write (C13-serial); borrowed reader buffers (C13-borrow). A port comparison may not be skipped for a particular port number.",
- "C14": " Also: the frame buffer is not modified inside the retransmission loop; io.EOF only on the closed-channel edge; borrowed reader buffers (ReadSlice result used after reading the CRC bytes: C14-borrow); an arm's assignment counts only if the arm cannot be left before it. The decode loop is left only at the end of the link (C14-decoder); the BUFFER arm takes the flush lock unconditionally.",
+ "C14": " Also: the frame buffer is not modified inside the retransmission loop; io.EOF only on the closed-channel edge; borrowed reader buffers (ReadSlice result used after reading the CRC bytes: C14-borrow); an arm's assignment counts only if the arm cannot be left before it. The decode loop is left only at the end of the link (C14-decoder); the BUFFER arm takes the flush lock unconditionally; a flag that gates delivery of ARQ data is opened by the dispatch goroutine itself (C14-gate; the two stores of tnc.connected in other goroutines are known findings).",
  "C15": " Also: the parsed dial_timeout reaches the context; the returned type's Read never drops the login reader; the login consumes whole CR-terminated lines only and all formats are constant (C15-login). ReadSlice is refused for login lines; the timeout installation may not depend on the caller's context state.",
  "C16": " Also: len(response) >= 8 proved; no constant-size buffer between the inputs and md5.Sum (C16-whole); the loop over local addresses is left only when exhausted and every iteration writes (C16-auxlist); the prompt test is made only for lines that are not ;PQ lines (C16-challenge). The handshake writes no package-level variable (C16-shared); cleanString removes LF as well as CR (C16-lines).",
  "C17": " Also: no session field read by the un-joined reporters is written by code reachable from Exchange, and the counters reported belong to the spawning call (C17-owner). A progress value that subtracts TxBufferLen is clamped at zero (C17-clamp); pending-message details live in per-iteration storage (C17-pending).",
